@@ -22,7 +22,10 @@ func (s *stubConn) Read(p []byte) (int, error) {
 	}
 	return n, nil
 }
-func (s *stubConn) WriteTo(w io.Writer) (int64, error) { n, err := w.Write(s.buf); return int64(n), err }
+func (s *stubConn) WriteTo(w io.Writer) (int64, error) {
+	n, err := w.Write(s.buf)
+	return int64(n), err
+}
 func (s *stubConn) Next(n int) ([]byte, error) {
 	if n > len(s.buf) {
 		return nil, io.ErrShortBuffer
@@ -49,28 +52,28 @@ func (s *stubConn) Discard(n int) (int, error) {
 	s.buf = s.buf[n:]
 	return n, nil
 }
-func (s *stubConn) InboundBuffered() int                               { return len(s.buf) }
-func (s *stubConn) Write(p []byte) (int, error)                        { return len(p), nil }
-func (s *stubConn) ReadFrom(r io.Reader) (int64, error)                { return 0, nil }
-func (s *stubConn) Writev(bs [][]byte) (int, error)                    { return 0, nil }
-func (s *stubConn) Flush() error                                       { return nil }
-func (s *stubConn) OutboundBuffered() int                              { return 0 }
-func (s *stubConn) AsyncWrite(b []byte, cb core.AsyncCallback) error   { return nil }
+func (s *stubConn) InboundBuffered() int                                { return len(s.buf) }
+func (s *stubConn) Write(p []byte) (int, error)                         { return len(p), nil }
+func (s *stubConn) ReadFrom(r io.Reader) (int64, error)                 { return 0, nil }
+func (s *stubConn) Writev(bs [][]byte) (int, error)                     { return 0, nil }
+func (s *stubConn) Flush() error                                        { return nil }
+func (s *stubConn) OutboundBuffered() int                               { return 0 }
+func (s *stubConn) AsyncWrite(b []byte, cb core.AsyncCallback) error    { return nil }
 func (s *stubConn) AsyncWritev(b [][]byte, cb core.AsyncCallback) error { return nil }
-func (s *stubConn) Fd() int                                            { return 7 }
-func (s *stubConn) Dup() (int, error)                                  { return 0, nil }
-func (s *stubConn) SetReadBuffer(int) error                            { return nil }
-func (s *stubConn) SetWriteBuffer(int) error                           { return nil }
-func (s *stubConn) IsOpened() bool                                     { return true }
-func (s *stubConn) SetLinger(int) error                                { return nil }
-func (s *stubConn) SetKeepAlivePeriod(time.Duration) error             { return nil }
-func (s *stubConn) LocalAddr() string                                  { return "127.0.0.1:1" }
-func (s *stubConn) RemoteAddr() string                                 { return "127.0.0.1:2" }
-func (s *stubConn) SetDeadline(time.Time) error                        { return nil }
-func (s *stubConn) SetReadDeadline(time.Time) error                    { return nil }
-func (s *stubConn) SetWriteDeadline(time.Time) error                   { return nil }
-func (s *stubConn) CloseWithCallback(core.AsyncCallback) error         { return nil }
-func (s *stubConn) Close() error                                       { return nil }
-func (s *stubConn) EnqueueInMsg(m *core.Msg)                           { s.enqueued = append(s.enqueued, m) }
+func (s *stubConn) Fd() int                                             { return 7 }
+func (s *stubConn) Dup() (int, error)                                   { return 0, nil }
+func (s *stubConn) SetReadBuffer(int) error                             { return nil }
+func (s *stubConn) SetWriteBuffer(int) error                            { return nil }
+func (s *stubConn) IsOpened() bool                                      { return true }
+func (s *stubConn) SetLinger(int) error                                 { return nil }
+func (s *stubConn) SetKeepAlivePeriod(time.Duration) error              { return nil }
+func (s *stubConn) LocalAddr() string                                   { return "127.0.0.1:1" }
+func (s *stubConn) RemoteAddr() string                                  { return "127.0.0.1:2" }
+func (s *stubConn) SetDeadline(time.Time) error                         { return nil }
+func (s *stubConn) SetReadDeadline(time.Time) error                     { return nil }
+func (s *stubConn) SetWriteDeadline(time.Time) error                    { return nil }
+func (s *stubConn) CloseWithCallback(core.AsyncCallback) error          { return nil }
+func (s *stubConn) Close() error                                        { return nil }
+func (s *stubConn) EnqueueInMsg(m *core.Msg)                            { s.enqueued = append(s.enqueued, m) }
 
 var _ core.CConn = (*stubConn)(nil)
